@@ -42,6 +42,8 @@ Holds(ev, i, p) ==
     [] p = "C09" -> C09_OK(ev)
     [] p = "C09run" -> C09run_OK(ev)
     [] p = "C04" -> C04_OK(ev)
+    [] p = "C05s" -> C05s_OK(ev)
+    [] p = "C05box" -> C05box_OK(ev)
     [] p = "C06" -> C06_OK(ev, i)
     [] p = "C10" -> C10_OK(ev, i)
     [] p = "C11" -> C11_OK(ev, i)
@@ -60,6 +62,8 @@ NonTrivial(ev, i, p) ==
     [] p = "C02" -> C02_NT(ev)
     [] p = "C08" -> C08_NT(ev)
     [] p = "C04" -> C04_NT(ev)
+    [] p = "C05s" -> C05s_NT(ev)
+    [] p = "C05box" -> TRUE
     [] p \in {"C06", "C10", "C11", "C17"} -> Len(ev.doc.elems) > 0
     [] OTHER -> FALSE
 
